@@ -185,8 +185,8 @@ var c11Grid = hx.Define("c11.grid", func(c *c11Case, s *hx.Sub) *hx.Violation {
 			}
 		}
 		text = ""
-		if c.Jump == "break" || unspec {
-			text = rowTags.ReplaceAllString(got, "") // a broken-off table: only the cells' text is checked
+		if unspec {
+			text = rowTags.ReplaceAllString(got, "") // the selection itself is open: only the cells' text is checked
 		} else {
 			rest := got
 			rows := c11Rows.FindAllStringSubmatch(got, -1)
